@@ -127,7 +127,20 @@ namespace
             std::int64_t v = a.at(p++);
             return present ? Value{v} : Value{};
         }
-        if (s.kind == 1 || s.kind == 2)
+        if (s.kind == 2)
+        {
+            if (!present) { return Value{}; }
+            const auto  elem = ValuePlanFactory::instance().type_for(s.child(0).meta->value_schema);
+            ListBuilder builder{elem, *s.meta->value_schema};
+            for (std::size_t i = 0; i < s.n; ++i)
+            {
+                bool  cp = false;
+                Value cv = build_value(s.child(i), a, p, cp);
+                if (cp) { builder.push_back(cv.view()); } else { builder.push_back_unset(); }
+            }
+            return builder.build();
+        }
+        if (s.kind == 1)
         {
             if (!present) { return Value{}; }
             const auto   binding = ValuePlanFactory::instance().type_for(s.meta->value_schema);
@@ -247,7 +260,11 @@ namespace
         std::int64_t dv      = 0;
         if (has)
         {
-            if (s.kind == 0) { dv = d.template checked_as<std::int64_t>(); }
+            // "sampled" reads hand back value() typed with the VALUE schema instead of a delta
+            const bool whole = s.kind != 0 && s.kind != 1 && d.schema() == s.meta->value_schema &&
+                               s.meta->value_schema != s.meta->delta_value_schema;
+            if (whole) { dv = -2; }
+            else if (s.kind == 0) { dv = d.template checked_as<std::int64_t>(); }
             else if (s.kind == 1)
             {
                 auto b = d.as_bundle();
@@ -344,12 +361,14 @@ namespace
             schema.node_kind     = NodeKind::PullSource;
             NodeCallbacks cb;
             cb.start = [pc](const NodeView &v, DateTime t) {
-                // wake in every cycle that has a scripted write
-                std::int64_t last = -1;
+                // wake at the first scripted write; evaluate re-arms for the next one
+                // (a second request would REPLACE a slot equal to the current time)
+                std::int64_t first = -1;
                 for (const auto &w : pc->ops)
                 {
-                    if (w.t >= us(t) && w.t != last) { v.graph_value()->schedule_node(0, dt(w.t)); last = w.t; }
+                    if (w.t >= us(t) && (first < 0 || w.t < first)) { first = w.t; }
                 }
+                if (first >= 0) { v.graph_value()->schedule_node(0, dt(first)); }
             };
             cb.evaluate = [pc](const NodeView &v, DateTime t) {
                 for (const auto &w : pc->ops)
@@ -387,6 +406,8 @@ namespace
             const bool        report = (k + 1 == ncons);
             cb.start = [pc, me, report](const NodeView &v, DateTime t) {
                 if (report) { v.graph_value()->schedule_node(me, t); }
+                const Consumer &self = pc->cons[me - 1];
+                if (self.kind == 3 && self.bind_at >= us(t)) { v.graph_value()->schedule_node(me, dt(self.bind_at)); }
             };
             cb.evaluate = [pc, me, report, ncons](const NodeView &v, DateTime t) {
                 pc->out->line({21, (std::int64_t)me, us(t)});
